@@ -10,5 +10,6 @@ INVARIANT PinHeld
 INVARIANT Carried
 INVARIANT PubkeysWritten
 INVARIANT WriteError
+INVARIANT InputError
 INVARIANT EmitB
 CHECK_DEADLOCK FALSE
